@@ -102,7 +102,7 @@ func main() {
 }
 
 // expectedSilent: seeded changes that are documented as outside the claimed clauses (DESIGN.md §9).
-var expectedSilent = map[string]int{"C12": 1}
+var expectedSilent = map[string]int{}
 
 // controlPar: control child processes run at a time (each ≈ 1 GB).
 const controlPar = 6
